@@ -7,6 +7,8 @@
 
 package cla
 
+import "sync"
+
 // simHook is a schedule/crash point of the deterministic-simulation harness. Without the
 // "verif" build tag it is an empty function and is inlined away.
 func simHook(point, key string) {}
@@ -14,3 +16,7 @@ func simHook(point, key string) {}
 // simOrderSenders / simOrderReceivers let the harness own the sync.Map iteration order.
 func simOrderSenders(css []ConvergenceSender) []ConvergenceSender       { return css }
 func simOrderReceivers(crs []ConvergenceReceiver) []ConvergenceReceiver { return crs }
+
+// simRangeConvs iterates over the manager's table; the harness build visits the entries in the order of their
+// addresses instead of sync.Map's random order.
+func simRangeConvs(m *sync.Map, f func(key, value interface{}) bool) { m.Range(f) }
